@@ -128,6 +128,19 @@ def run(tier):
             m = re.search(r"/\\ hist = (<<.*?>>)\n", r.out, re.S)
             c.finding("c09:grammar:%s:%s" % (name, r.violated), "on the grammar of the working tree, %s fails at entry %s: the keyword and symbolic spelling of an operator (or a redundant pair of parentheses) parse differently" % (r.violated, start),
                       {"entry": name, "invariant": r.violated, "tlc_trace_tail": r.out[-3000:]})
+    # ---- the structural condition on the extracted grammar (no length bound): every production that spells an operator has its twin
+    ar = vf.run_tlc("AliasRules", "AliasRules.cfg", c.run_dir, env={"LR_TABLES": os.path.join(gen, "lr_tables.json")}, timeout=600, keep_out=False)
+    c.add_tlc("AliasRules", ar, "AliasClosed: equal precedence of the two spellings and a twin production with the same action for every production that mentions one")
+    if not ar.emitted:
+        raise vf.MachineryError("AliasRules.tla produced no result")
+    c.cov["alias_sites_in_grammar"] = ar.emitted[0]["sites"]
+    if ar.emitted[0]["sites"] < 6:
+        raise vf.MachineryError("AliasRules.tla found only %d productions that spell and/or/not: the extraction or the token names changed" % ar.emitted[0]["sites"])
+    if not ar.emitted[0]["samelevel"]:
+        c.finding("c09:grammar:alias-precedence", "the keyword and the symbolic spelling of an operator are declared at different precedence levels in the grammar of the working tree", {"entry": "AliasRules", "result": ar.emitted[0]})
+    for m in ar.emitted[0]["missing"]:
+        c.finding("c09:grammar:alias-twin:%s" % m["lhs"], "the production %s -> %s spells an operator at position %d and has no twin production with the other spelling and the same action: the two spellings are not interchangeable there" % (
+            m["lhs"], " ".join(m["rhs"]), m["at"]), {"entry": "AliasRules", "production": m})
     # ---- metamorphic replay
     models = docgen.generate(c, ["labels", "mixed"], 700 if quick else 5000, c.seed, bfs=False)
     cand = [e["m"] for e in models if faults.blocks(e["m"])]
